@@ -486,6 +486,7 @@ func (in *Exec) callSSAOpts(caller *frame, fn *ssa.Function, args []value, env [
 			}
 		}
 		if ok {
+			in.callee = fn
 			if r := intr(in, caller, args); r != (notHandled{}) {
 				in.W.noteIntrinsic(name)
 				return r
